@@ -396,12 +396,19 @@ struct Exec
     return v;
   }
   // role assignment admissible? SEL only on 0/1 columns
-  int admissibleType(const MDb& m, int uid, int t) const
+  // premises of the selection role: the column holds 0/1, and a Db holds ONE selection (getSelection, isActive and
+  // addSelection* know a single 'sel'; with several, deleting or re-locating the first one silently promotes another
+  // column - possibly not 0/1 - to selection). A request that would leave two is exercised with the weight role instead.
+  int admissibleType(const MDb& m, int uid, int t, int rank = 0, bool clean = false) const
   {
     if (t == ELoc::SEL.getValue())
     {
       int c = m.colOfUid(uid);
       if (c >= 0 && !is01(m.cols[c])) return ELoc::W.getValue();
+      const std::vector<int>& S = m.roles[(size_t)t];
+      size_t count = clean ? 0 : S.size();
+      bool single = (count == 0) ? (rank <= 0) : (count == 1 && (rank == 0 || (rank < 0 && S[0] == uid)));
+      if (!single) return ELoc::W.getValue();
     }
     return t;
   }
@@ -533,6 +540,7 @@ struct Exec
         std::string radix = newName(op.I(4));
         double val = op.D(0);
         int nechInit = (int)op.I(5);
+        if (t == ELoc::SEL.getValue() && (nadd != 1 || m.roleCount(t) > 0)) t = ELoc::W.getValue(); // one selection per Db
         if (t == ELoc::SEL.getValue()) val = (val != 0.) ? 1. : 0.;
         if (lrank > m.roleCount(t)) lrank = m.roleCount(t); // placement beyond the end is exercised by setloc ops only
         if (nadd <= 0) illformed = true;
@@ -566,6 +574,7 @@ struct Exec
         bool useSel = op.I(2) % 2 == 1;
         int t = pickType(op.I(3));
         int lrank = (int)op.I(4);
+        if (t == ELoc::SEL.getValue() && m.roleCount(t) > 0) t = ELoc::W.getValue(); // one selection per Db
         if (lrank > m.roleCount(t)) lrank = m.roleCount(t);
         std::string radix = newName(op.I(5));
         int nrow = useSel ? m.nactive() : m.nech;
@@ -842,14 +851,14 @@ struct Exec
           std::string n = pickName(m, op.I(1));
           int c = m.colOfName(n);
           uid = c >= 0 ? m.cols[c].uid : -1;
-          t = admissibleType(m, uid, t);
+          t = admissibleType(m, uid, t, rank, clean);
           db->setLocator(n, LT(t), rank, clean);
           if (c < 0) illformed = true;
         }
         else if (k == "setlocuid")
         {
           uid = pickUid(m, op.I(1));
-          t = admissibleType(m, uid, t);
+          t = admissibleType(m, uid, t, rank, clean);
           db->setLocatorByUID(uid, LT(t), rank, clean);
           if (m.colOfUid(uid) < 0) illformed = true;
         }
@@ -857,7 +866,7 @@ struct Exec
         {
           int c = pickCol(m, op.I(1));
           uid = (c >= 0 && c < (int)m.cols.size()) ? m.cols[c].uid : -1;
-          t = admissibleType(m, uid, t);
+          t = admissibleType(m, uid, t, rank, clean);
           db->setLocatorByColIdx(c, LT(t), rank, clean);
           if (uid < 0) illformed = true;
         }
